@@ -154,7 +154,7 @@ def signature(step):
         return (step.op, step.line.split(" ")[1], step.impl.get("res"), (step.impl.get("out") or "")[:2] == "[]")
     if step.op == "pure":
         out = step.impl_raw
-        return (step.op, step.line.split(" ")[1], out.split(":")[0] + ":" + (out.split(":")[1][:8] if ":" in out else ""))
+        return (step.op, step.line.split(" ")[1], out.split(":")[0] + ":" + (out.split(":")[1][:8] if ":" in out else ""), tag)
     return (step.op, step.impl_raw[:24])
 
 
@@ -190,9 +190,9 @@ def run_property(pc, tier, seed, known_matchers):
             if s.op in ("recv", "recvh"):
                 k = "%s/%s" % (s.impl.get("ack"), s.impl.get("src"))
                 res.outcome_hist[k] = res.outcome_hist.get(k, 0) + 1
-                t = s.model.get("tag")
-                if t:
-                    res.tag_hist[t] = res.tag_hist.get(t, 0) + 1
+            t = s.model.get("tag")
+            if t:
+                res.tag_hist[t] = res.tag_hist.get(t, 0) + 1
             sig = signature(s)
             if nontrivial(sig):
                 res.nontrivial.add(sig)
